@@ -241,45 +241,56 @@ def run(tier, seed, replay_file=None):
         o.mc_runs.append({"spec": "MC_Build(simulate depth 6)", "behaviours": len(uniq)})
     nhist = len(cases)
     mcases = [] if replay_file else mult_cases()
-    out = pool_map(replay, list(enumerate(cases)), chunksize=64) + pool_map(replay_mult, [(nhist + k, c) for k, c in enumerate(mcases)], chunksize=8)
+    jobs = [("h", i, c) for i, c in enumerate(cases)] + [("m", nhist + k, c) for k, c in enumerate(mcases)]
     cases = cases + mcases
-    traces = [t for t, _ in out]
-    finals = [f for _, f in out]
-    files = tlc.split_batches([t for t in traces if t], WORK / "c04", f"tr-{tier}", NPROC)
-    res = tlc.validate_batches("trace/Trace_Build.tla", "trace/Trace_Build.cfg", files, jobs=NPROC, tag="c04val")
-    v1 = {}
-    for r in res:
-        o.transitions += r.generated
-        o.states += r.distinct
-        for tid, ok, clause in r.verdicts:
-            v1[tid] = (ok, clause)
-    v2, gen = conn.validate(finals, "c04fin")
-    o.transitions += gen
-    for i, t in enumerate(traces):
-        if not t:
-            v1.setdefault(i, (True, ""))          # (the multiplication histories have no step events: only their built design is judged)
-    if len(v1) != len(cases) or len(v2) != len(cases):
-        raise tlc.TlcError(f"C04: {len(cases)} histories, {len(v1)} step verdicts, {len(v2)} final verdicts")
-    o.traces = len(cases)
-    o.evaluations = sum(len(t) for t in traces) + len(finals)
+    v1, v2 = {}, {}
     nt = 0
-    for i, case in enumerate(cases):
-        fs = feats(case)
-        if any(x.startswith(("replaced_", "disconnected_")) for x in fs):
-            nt += 1
-        for x in fs:
-            o.cover[x] = o.cover.get(x, 0) + 1
-        ok1, c1 = v1[i]
-        ok2, c2 = v2[i]
-        c2s = c2.split(":")[0]
-        o.cover["final_" + c2s] = o.cover.get("final_" + c2s, 0) + 1
-        if not ok1:
-            o.violations.append(Violation(clause="step:" + c1, case=case, features=fs, detail=traces[i] if len(o.violations) < 20 else None))
-        elif c2s == "rejected_valid":
-            # the history ends in a complete valid mapping: "the elaborated design contains exactly the final mapping" presupposes that it elaborates
-            o.violations.append(Violation(clause="final:valid_final_mapping_rejected", case=case, features=fs, detail={"exc": finals[i]["exc"]}))
-        elif c2s in ("leaf_table", "observables", "partition"):
-            o.violations.append(Violation(clause="final:" + c2s, case=case, features=fs, detail={"P": finals[i]["P"]} if len(o.violations) < 20 else None))
+    o.traces = len(cases)
+    o.evaluations = 0
+    # in chunks: a quarter of a million histories with their event traces and built designs do not fit in memory at once
+    CH = 40000
+    for lo in range(0, len(jobs), CH):
+        part = jobs[lo:lo + CH]
+        out = pool_map(replay, [(i, c) for k, i, c in part if k == "h"], chunksize=64) + pool_map(replay_mult, [(i, c) for k, i, c in part if k == "m"], chunksize=8)
+        idx = [i for k, i, c in part if k == "h"] + [i for k, i, c in part if k == "m"]
+        traces = {i: t for i, (t, _) in zip(idx, out)}
+        finals = {i: f for i, (_, f) in zip(idx, out)}
+        files = tlc.split_batches([traces[i] for i in idx if traces[i]], WORK / "c04", f"tr-{tier}", NPROC)
+        res = tlc.validate_batches("trace/Trace_Build.tla", "trace/Trace_Build.cfg", files, jobs=NPROC, tag="c04val")
+        for r in res:
+            o.transitions += r.generated
+            o.states += r.distinct
+            for tid, ok, clause in r.verdicts:
+                v1[tid] = (ok, clause)
+        pv2, gen = conn.validate([finals[i] for i in idx], "c04fin")
+        o.transitions += gen
+        # (conn.validate numbers its verdicts by the `tid` each final carries)
+        v2.update(pv2)
+        for i in idx:
+            if not traces[i]:
+                v1.setdefault(i, (True, ""))          # (the multiplication histories have no step events: only their built design is judged)
+        if any(i not in v1 or i not in v2 for i in idx):
+            raise tlc.TlcError(f"C04: {len(idx)} histories in this chunk, step / final verdicts missing for {[i for i in idx if i not in v1 or i not in v2][:5]}")
+        o.evaluations += sum(len(traces[i]) for i in idx) + len(idx)
+        for i in idx:
+            case = cases[i]
+            fs = feats(case)
+            if any(x.startswith(("replaced_", "disconnected_")) for x in fs):
+                nt += 1
+            for x in fs:
+                o.cover[x] = o.cover.get(x, 0) + 1
+            ok1, c1 = v1[i]
+            ok2, c2 = v2[i]
+            c2s = c2.split(":")[0]
+            o.cover["final_" + c2s] = o.cover.get("final_" + c2s, 0) + 1
+            if not ok1:
+                o.violations.append(Violation(clause="step:" + c1, case=case, features=fs, detail=traces[i] if len(o.violations) < 20 else None))
+            elif c2s == "rejected_valid":
+                # the history ends in a complete valid mapping: "the elaborated design contains exactly the final mapping" presupposes that it elaborates
+                o.violations.append(Violation(clause="final:valid_final_mapping_rejected", case=case, features=fs, detail={"exc": finals[i]["exc"]}))
+            elif c2s in ("leaf_table", "observables", "partition"):
+                o.violations.append(Violation(clause="final:" + c2s, case=case, features=fs, detail={"P": finals[i]["P"]} if len(o.violations) < 20 else None))
+        del traces, finals, out
     o.distinct_nontrivial = nt
     vals = ["s", "bus0", "cat", "pref", "nc", "b", "anon", "dict", "anonp", "dictp", "prefbit", "bref"]
     o.required_cover = ["op_connect", "op_replace", "op_disconnect", "op_read", "final_ok_valid", "multiplied_arrays"] + ["replaced_" + v for v in vals] + ["replacing_" + v for v in vals]
